@@ -70,7 +70,12 @@ Inductive c15_case :=
 | HUnmarshal (b : bytes) (o : obs (Z * bytes))
 | HString (ty : Z) (digest : bytes) (s : bytes)
 | HParse (s : bytes) (o : obs (Z * bytes))
-| HCompare (a b : option (Z * bytes)) (eq : bool).
+| HCompare (a b : option (Z * bytes)) (eq : bool)
+(* the same operations on hashes obtained by DECODING enc (UnmarshalVT); a failed decode is OErr 20.
+   dgbytes/stored: the harness states that the digest bytes dgbytes are the value of the description stored *)
+| HVerifyDec (enc : bytes) (dgbytes : bytes) (stored : digest_desc) (data : bytes) (o : obs nat)
+| HValidateDec (enc : bytes) (o : obs unit)
+| HCompareDec (enc1 enc2 : bytes) (o : obs bool).
 
 Definition c15_agree (c : c15_case) : bool :=
   match c with
@@ -88,4 +93,15 @@ Definition c15_agree (c : c15_case) : bool :=
   | HString ty dg s => bytes_eqb (hash_marshal_string ty dg) s
   | HParse s o => obs_agree pair_eqb (hash_parse_b58 s) o
   | HCompare a b eq => Bool.eqb (compare_hash a b) eq
+  | HVerifyDec enc dgbytes st data o =>
+      obs_agree Nat.eqb
+        (r <- hash_unmarshal enc ;;
+         let '(ty, dg) := r in
+         let stored := if bytes_eqb dg dgbytes then digest_of st else lift dg in
+         h <- verify_data ty stored data ;; Ok (length h)) o
+  | HValidateDec enc o =>
+      obs_agree unit_eqb (r <- hash_unmarshal enc ;; hash_validate (fst r) (snd r)) o
+  | HCompareDec e1 e2 o =>
+      obs_agree Bool.eqb
+        (a <- hash_unmarshal e1 ;; b <- hash_unmarshal e2 ;; Ok (compare_hash (Some a) (Some b))) o
   end.
